@@ -152,3 +152,67 @@ func TestC14Demo_PlaceholderShapedLiteralDoesNotReexpand(t *testing.T) {
 		t.Errorf("the literal '__IDENT_1__' did not come back as itself: %s", body)
 	}
 }
+
+// A legal quoted identifier that contains a single quote (`AS "a'b"`) made
+// ioDenylistNormalise — which deletes every double quote before masking —
+// mis-pair the quotes that follow, so the string literal in table position
+// (a DuckDB replacement scan of another database's files) stood outside any
+// placeholder and the table-position check did not see it. (Pointed out by a
+// seeding agent reading the unmodified tree; the code's own comment called
+// the case "not exploitable".)
+func TestC14Demo_QuoteInsideIdentifierDoesNotHideAReplacementScan(t *testing.T) {
+	app, root := c14Env(t)
+	glob := root + "/secretdb/cpu/**/*.parquet"
+	for _, sql := range []string{
+		`SELECT s.host AS "a'b" FROM tenant.cpu, '` + glob + `' s`,
+		`SELECT s.host AS "a'b", 'x' AS y FROM tenant.cpu, '` + glob + `' s`,
+		`SELECT "it's" FROM (SELECT host AS "it's" FROM '` + glob + `') t`,
+		// the same shift hides a denied I/O function call inside what the deny-list takes for a literal
+		`SELECT s.host AS "a'b" FROM tenant.cpu, read_parquet('` + glob + `') s`,
+		`SELECT s.host AS "a'b" FROM tenant.cpu, "parquet_scan"('` + glob + `') s`,
+	} {
+		code, body := c14Post(t, app, "/api/v1/query", sql)
+		if code == 200 || strings.Contains(body, c14Canary) {
+			t.Errorf("tenant-only caller executed a replacement scan of secretdb's files (status %d, canary %v): %s", code, strings.Contains(body, c14Canary), strings.ReplaceAll(sql, glob, "<secretdb files>"))
+		}
+	}
+	if code, body := c14Post(t, app, "/api/v1/query", `SELECT host AS "a'b" FROM tenant.cpu`); code != 200 {
+		t.Errorf("legitimate query with a quote inside an alias refused: %d %s", code, body)
+	}
+}
+
+// The measurement endpoint assembles `SELECT * FROM <db>.<m> WHERE <where>` and
+// transforms it WITHOUT a header database, but its permission check resolved
+// unqualified names of the where fragment in the x-arc-database header's
+// database. With the header set to a database the caller may read, a subquery
+// over an unqualified table was checked there and executed against `default`.
+// (Pointed out by a seeding agent reading the unmodified tree.)
+func TestC14Demo_MeasurementEndpointHeaderDoesNotMoveTheCheck(t *testing.T) {
+	app, root := c14Env(t)
+	// a table in `default` the caller (tenant only) must not read
+	dir := filepath.Join(root, "default", "cpu", "2026", "01", "01", "00")
+	os.MkdirAll(dir, 0o700)
+	src := filepath.Join(root, "secretdb", "cpu", "2026", "01", "01", "00", "f.parquet")
+	data, err := os.ReadFile(src)
+	if err != nil {
+		t.Fatal(err)
+	}
+	if err := os.WriteFile(filepath.Join(dir, "f.parquet"), data, 0o600); err != nil {
+		t.Fatal(err)
+	}
+	req := httptest.NewRequest("GET", "/api/v1/query/cpu?database=tenant&order_by=v&where="+url.QueryEscape("host NOT IN (SELECT host FROM cpu)"), nil)
+	req.Header.Set("x-arc-database", "tenant")
+	resp, err := app.Test(req, -1)
+	if err != nil {
+		t.Fatal(err)
+	}
+	body, _ := io.ReadAll(resp.Body)
+	// `cpu` in the subquery is default.cpu for the transform; the caller has no
+	// grant on it, so the request must be refused. Before the repair it was
+	// checked as tenant.cpu, executed against default.cpu, and answered 200
+	// with tenant's row (proving default.cpu was read: tenant's host "ok" is
+	// not among default's hosts).
+	if resp.StatusCode == 200 {
+		t.Errorf("where-subquery over default.cpu executed for a tenant-only caller: %s", body)
+	}
+}
